@@ -80,3 +80,23 @@ Proof. exact end_pos_is_walk. Qed.
 Print Assumptions C03_end_pos_is_walk.
 Example C03_end_pos_example : end_pos [39;39;39;97;13;10;98;13;99;10;39;39;39] 3 4 = (6, 3).
 Proof. vm_compute. reflexivity. Qed.
+
+(* the module ends at the end of the input: the end marker - the last token, and the last leaf of every returned tree - sits at the
+   offset len(text), i.e. on the last line of split_keep text (line count = number of line breaks + 1) at the column where the text ends *)
+Theorem C03_endmarker_at_end_of_input : forall v s toks, tokenize_text v s = Tok.Ok toks ->
+  exists body e, toks = body ++ [e] /\ ty e = ENDMARKER /\ ts e = [] /\
+    loc (Lines.split_keep s) 1 true (len s) (tline e, tcol e).
+Proof.
+  intros v s toks H.
+  destruct (C09.C09_token_shape _ _ _ H) as (body & e & E & TE & SE & _).
+  exists body, e. split; [exact E|split; [exact TE|split; [exact SE|]]].
+  pose proof (C09.C09_tokens_tile_text _ _ _ H) as TILE.
+  unfold tokenize_text in H.
+  pose proof (C03_token_positions _ _ _ _ _ _ H ltac:(lia) (Lines.split_keep_nonempty s)) as W.
+  subst toks. apply wfp_app in W as [_ W]. apply wfp_one in W.
+  assert (NB: blockish e = false) by (unfold blockish; rewrite TE; reflexivity). rewrite NB in W.
+  assert (L: len s = 0 + len (emit body) + len (tpre e)).
+  { rewrite <- TILE, emit_app, len_app, emit_one, SE, app_nil_r. unfold len, Tok.len. lia. }
+  rewrite L. exact W.
+Qed.
+Print Assumptions C03_endmarker_at_end_of_input.
